@@ -462,6 +462,16 @@ def real_objects(ctx, thorough):
 
 
 # ------------------------------------------------------------------ correspondence (model bytes == real bytes)
+def big_endian_ok():
+    """are multi-byte header fields of a big-endian HeaderTypes really big-endian? (False before
+    fixes/C17-header-endianness.diff)"""
+    from ppci.arch.arch_info import Endianness
+    from ppci.format.elf.headers import HeaderTypes
+    h = HeaderTypes(bits=32, endianness=Endianness.BIG).ElfHeader()
+    h.e_type = 1
+    return h.serialize()[:2] == b'\x00\x01'
+
+
 def outcome_name(r):
     return 'ok' if isinstance(r, OkV) else ('diag' if r is Diag else 'internal')
 
@@ -474,10 +484,12 @@ def correspondence(ctx, thorough):
     n_prog = 260 if thorough else 90
     for i in range(n_prog):
         o, t = gen_object(rng, malformed=(i % 4 == 3))
-        jobs.append(('gen%d' % i, o, t))
+        jobs.append(('gen%s%d' % ('M' if i % 4 == 3 else '', i), o, t))
     cases, recs, seen = [], [], set()
+    rcases, rrecs = [], []
     dist = {}
     nontriv = 0
+    be_ok = big_endian_ok()
     for lab, o, t in jobs:
         if not representable(o) or not isinstance(t, str):
             dist['unrepresentable'] = dist.get('unrepresentable', 0) + 1
@@ -493,6 +505,11 @@ def correspondence(ctx, thorough):
         dist[k] = dist.get(k, 0) + 1
         if isinstance(r, OkV) and any(s.size for s in o.sections) and o.symbols:
             nontriv += 1
+        # reader validation: the Coq gABI reader, run on the model's bytes of this very object, must accept
+        # and recover it (well-formed objects only; big-endian only once the fields are big-endian)
+        if isinstance(r, OkV) and not lab.startswith('genM') and (be_ok or o.arch.name != 'microblaze'):
+            rcases.append(('recovered_code (%s) %s' % (obj_term(o), coq_str(t)), 3))
+            rrecs.append((lab, t, o))
     ctx.cov['stages']['correspondence_distribution'] = dist
     ctx.cov['distinct_nontrivial'] += nontriv
     for lab, t, r, exc, o in recs[:: max(1, len(recs) // 8)]:
@@ -507,4 +524,13 @@ def correspondence(ctx, thorough):
         lab, t, r, exc, o = recs[bad[0]]
         ctx.failed_stages.append(('correspondence', 'Model.ElfWriter.write_elf disagrees with ppci.format.elf.write_elf '
                                   'on %d of %d objects, first: %s (%s, %s)' % (len(bad), len(cases), lab, o.arch.name, t)))
+    rbad = ctx.run_cases('elfreader', ['Model.ElfWriter', 'Spec.ElfSpec', 'Proofs.C17_recover'], rcases, shard=12)
+    ctx.cov['stages']['reader_validation'] = {'objects': len(rcases), 'disagree': len(rbad or [])}
+    if rbad:
+        for i in rbad[:5]:
+            lab, t, o = rrecs[i]
+            ctx.log('Coq reader does not recover (model bytes of)', lab, t, o.arch.name)
+        lab, t, o = rrecs[rbad[0]]
+        ctx.failed_stages.append(('reader_validation', 'Spec.ElfSpec.read does not accept/recover the model bytes of %d '
+                                  'of %d well-formed objects, first: %s (%s, %s)' % (len(rbad), len(rcases), lab, o.arch.name, t)))
     return bad
